@@ -26,6 +26,8 @@ def correspondence(ctx):
         cases.append(f'rules|um|width|{hexs(s_)}')
     for s_ in structured_strings(ctx, 800 if ctx.tier == 'quick' else 10000, ['filler_ascii', 'filler_2', 'filler_3', 'filler_4', 'wide', 'wide', 'wide', 'compat', 'space', 'cased']):
         cases.append(f'rules|um|width|{hexs(s_)}')
+    for s_ in hole_triples(ctx) + product_strings(ctx, tails=SEGMENT_POOL['wide'] + [0x61, 0xB5], heads=[[], [0xFF21], [0x3000]], extra_long=False):
+        cases.append(f'rules|um|width|{hexs(s_)}')
     cases += fuzz_cases(ctx, {5})      # coverage-guided search of the tree under check (only when the source changed / thorough)
     res = run_cases(cases, ctx.work)
     keyset = set(keys)
